@@ -1,25 +1,30 @@
 (* Property C11: bytecode in the version 1 format still runs the same program.
-   Status: PARTIAL.
    Regenerated on every run (Gen/OpTable.v from opcodes.go, opv1/opcodes_v1.go, compiler.go):
-   the two opcode tables and MakeInstruction's byte layout; the table theorems below are
-   re-proved against them each time.
-   Full statement (kept as a definition, decided on every run by the validator reloc_ok on the
-   real converter's output for every function of every generated program, and by byte-identical
-   comparison of the model converter with the implementation): the converter maps every
-   well-formed version 1 instruction stream to a version 2 stream denoting the same offset-free
-   program, source map included. *)
+   the two opcode tables and MakeInstruction's byte layout; every theorem below is re-proved
+   against them each time.
+   C11_conv_relocates: for every byte string that is a well-formed version 1 instruction stream
+   (it decodes, every jump-class operand is the offset of an instruction or the end) and every
+   source map, the model of convCompFuncV1ToV2 succeeds and returns a version 2 stream that
+   denotes the same offset-free program - the same opcodes and operands, every jump-class operand
+   (JUMP, JUMPFALSY, ANDJUMP, ORJUMP, both operands of SETUPTRY) pointing at the instruction with
+   the same index, wherever the jump stands relative to other jumps - and the same source map by
+   instruction index.  The model converter is compared byte for byte with the implementation and
+   the validator reloc_ok runs on the real converter's output on every run. *)
 From Coq Require Import List ZArith Bool String Lia.
-From Ugo Require Import Base.Res Gen.OpTable Byte.Instr Byte.V1Conv.
+From Ugo Require Import Base.Res Gen.OpTable Byte.Instr Byte.V1Conv Byte.V1ConvProofs.
 Import ListNotations.
 Local Open Scope Z_scope.
 
-Definition C11_conv_relocates_full : Prop :=
+Theorem C11_conv_relocates :
   forall ins sm a,
+    Forall (fun b => 0 <= b < 256) ins ->
     abstract opcodes_v1 ins = Some a ->
     exists ins2 sm2,
       conv_comp_func ins sm = Ok (ins2, sm2) /\
       abstract opcodes_v2 ins2 = Some a /\
       abstract_srcmap opcodes_v2 ins2 sm2 = abstract_srcmap opcodes_v1 ins sm.
+Proof. exact conv_relocates. Qed.
+Print Assumptions C11_conv_relocates.
 
 (* version 1 and version 2 number the opcodes identically and differ only in the width of the
    jump-class operands (2 -> 4 bytes): nothing else needs conversion *)
